@@ -138,7 +138,7 @@ func coqUpload(p *program, o *observation) (string, bool) {
 		if vs := w.Header["Content-Type"]; len(vs) == 1 {
 			ct = vs[0]
 		}
-		obs = append(obs, hk.CoqPair(coqParts(ct, w.Body), hk.CoqBool(!w.BodyErr)))
+		obs = append(obs, hk.CoqPair(coqParts(ct, w.Body, len(sh.Ordered)), hk.CoqBool(!w.BodyErr)))
 	}
 	// a retry was counted (RetryAttempt) that never reached the wire: the retry was refused
 	e := effectiveOf(p)
@@ -146,11 +146,11 @@ func coqUpload(p *program, o *observation) (string, bool) {
 	if n := len(o.Wires); failed && n > 0 && n <= len(p.Script) && p.Script[n-1].WaitCancel && e.Interval > 0 {
 		failed = false // the retry was abandoned because the context ended, not because an upload failed
 	}
-	return fmt.Sprintf("UploadCase %s %s %s %s %s %s %s %s %s", hk.CoqBool(e.Has && e.N != 0), hk.CoqBool(sh.Chunked), coqAmap(sh.CForm), coqAmap(sh.RForm),
+	return fmt.Sprintf("UploadCase %s %s %s %s %s %s %s %s %s %s", hk.CoqBool(e.Has && e.N != 0), hk.CoqBool(sh.Chunked), coqCookies(sh.Ordered), coqAmap(sh.CForm), coqAmap(sh.RForm),
 		hk.CoqList(files), hk.CoqList(tab), hk.CoqList(obs), hk.CoqBool(failed), hk.CoqBool(o.UpFront)), true
 }
 
-func coqParts(ct, body string) string {
+func coqParts(ct, body string, nOrdered int) string {
 	_, params, err := mime.ParseMediaType(ct)
 	if err != nil || params["boundary"] == "" {
 		return "[PField [] []]" // not a multipart body: never equal to what the model builds
@@ -174,7 +174,13 @@ func coqParts(ct, body string) string {
 			fields = append(fields, fld{pt.FormName(), string(b)})
 		}
 	}
-	sort.SliceStable(fields, func(i, j int) bool { return fields[i].k < fields[j].k })
+	// the ordered pairs come first, in the caller's order; the plain form fields after them are in
+	// Go map order: sorted by name here
+	if nOrdered > len(fields) {
+		nOrdered = len(fields)
+	}
+	rest := fields[nOrdered:]
+	sort.SliceStable(rest, func(i, j int) bool { return rest[i].k < rest[j].k })
 	var out []string
 	for _, f := range fields {
 		out = append(out, fmt.Sprintf("PField %s %s", hk.CoqStr(f.k), hk.CoqStr(f.v)))
